@@ -376,6 +376,22 @@ func c11PremiumStream(r *Run, n int) {
 		}
 		r.Emit(fmt.Sprintf("C11 prem %d %d %d", amt, rate, dur), exp)
 		r.Evaluations++
+		// the total Int-valued variant used by other models: any int64 amount; outside the int64 range of the
+		// result the model follows the amd64 back end (compared, not claimed)
+		if r.Rng.Intn(4) == 0 || exp == "ood" {
+			a2 := amt
+			if r.Rng.Intn(2) == 0 {
+				a2 = -amt
+			}
+			var l2 int64
+			if c11Safe(func() { l2 = int64(order.FixedRatePremium(rate).LumpSumPremium(btcutil.Amount(a2), dur)) }) == "" {
+				r.Emit(fmt.Sprintf("C11 premi %d %d %d", a2, rate, dur), fmt.Sprint(l2))
+				r.Count("premi")
+				if a2 < 0 {
+					r.Count("premi/negative")
+				}
+			}
+		}
 	}
 	// boundary triples
 	for _, a := range []int64{0, 1, 2, 99999, 100000, 100001, 1 << 24, 1<<53 - 1, 1 << 53, 1<<53 + 1, 1<<62 + 12345, math.MaxInt64, 2_100_000_000_000_000} {
